@@ -3,6 +3,7 @@ package vlib
 import (
 	"bufio"
 	"bytes"
+	"encoding/hex"
 	"encoding/json"
 	"fmt"
 	"os"
@@ -236,7 +237,7 @@ func RunChild(bin, mode string, c *ChildCase, strace bool, timeout time.Duration
 
 	var cmd *exec.Cmd
 	if strace {
-		args := []string{"-f", "-X", "raw", "-e", "trace=seccomp,prctl", "-e", "abbrev=none", "-e", "signal=none", "-s", "1000000", "-o", stracePath}
+		args := []string{"-f", "-X", "raw", "-e", "trace=seccomp,prctl,uname", "-e", "abbrev=none", "-e", "signal=none", "-s", "1000000", "-o", stracePath}
 		if c.Unprivileged {
 			args = append(args, "-u", "nobody") // strace stays root, the tracee runs as uid/gid 65534 without capabilities
 		}
@@ -452,4 +453,23 @@ func ProbeEvent(goarch string, p Probe, o *Oracles) Event {
 		e.Args = p.Args
 	}
 	return e
+}
+
+// FakeKernelReleases are release strings a process can be made to see through uname(2) (strace rewrites the result):
+// the running kernel stays what it is, so the library's behaviour must not depend on them.
+var FakeKernelReleases = []string{"2.6.32-754.el6.x86_64", "3.10.0-1160.el7.x86_64", "3.16.0", "3.17.0", "4.4.0-210-generic", "4.13.0", "4.14.0", "4.19.0-26-amd64",
+	"5.4.0-150-generic", "5.10.0-28-amd64", "5.15.0-91-generic", "6.1.0-18-amd64", "6.6.13", "6.12.0", "6.17.0", "7.0.0-rc1", "10.2.1", "", "garbage"}
+
+// UnamePoke returns the strace arguments that make every uname(2) call of the tracees report the given release.
+func UnamePoke(release string) []string {
+	b := make([]byte, 0, 200)
+	pad := func(s string) []byte {
+		x := make([]byte, 65)
+		copy(x, s)
+		return x
+	}
+	b = append(b, pad("Linux")...)
+	b = append(b, pad("host")...)
+	b = append(b, pad(release)...)
+	return []string{"-e", "inject=uname:poke_exit=@arg1=" + hex.EncodeToString(b)}
 }
